@@ -46,4 +46,11 @@ PARAM = {
     "shared::util::itime::IWeekday::from_monday_one_offset": {1: (1, 7)},
     "shared::util::itime::IWeekday::from_sunday_zero_offset": {1: (0, 6)},
     "shared::util::itime::IWeekday::from_sunday_one_offset": {1: (1, 7)},
+    # "assumes that year and month are valid" (rustdoc); day must be positive
+    "shared::util::itime::IDate::try_new": {1: (-9999, 9999), 2: (1, 12), 3: (1, 127)},
+    "shared::util::itime::IDate::from_day_of_year": {1: (-9999, 9999)},
+    "shared::util::itime::IDate::from_day_of_year_no_leap": {1: (-9999, 9999)},
+    "shared::util::itime::ITimestamp::from_second": {1: UNIX_S},
+    # unchecked entrances used by tz::tzif on validated TZif fields
+    "tz::offset::Offset::from_seconds_unchecked": {1: (-93599, 93599)},
 }
